@@ -65,7 +65,24 @@ func workerMain(args []string) int {
 		}
 	}
 	// watchdog: a library call (or a library goroutine the harness waits for) that computes forever
-	go func() {
+	go spinWatchdog(r, j, resPath)
+	p.Run(c)
+	r.Done = true
+	if *resPath != "" {
+		if err := r.Write(*resPath); err != nil {
+			fmt.Fprintf(os.Stderr, "write result: %v\n", err)
+			return 70
+		}
+	} else {
+		b, _ := json.MarshalIndent(r, "", " ")
+		fmt.Println(string(b))
+	}
+	return 0
+}
+
+// spinWatchdog is excluded from dead-state proofs by its name (rig.ProveDead skips goroutines running it).
+func spinWatchdog(r *rig.Result, j *rig.Journal, resPath *string) {
+	{
 		last, since := rig.CallTicks(), time.Now()
 		for {
 			time.Sleep(2 * time.Second)
@@ -98,17 +115,5 @@ func workerMain(args []string) int {
 			}
 			os.Exit(0)
 		}
-	}()
-	p.Run(c)
-	r.Done = true
-	if *resPath != "" {
-		if err := r.Write(*resPath); err != nil {
-			fmt.Fprintf(os.Stderr, "write result: %v\n", err)
-			return 70
-		}
-	} else {
-		b, _ := json.MarshalIndent(r, "", " ")
-		fmt.Println(string(b))
 	}
-	return 0
 }
